@@ -8,7 +8,7 @@ claimed = {
  "C04": ("4 (C04)", "C04.page C04.concat C04.stable C04.live: paginating actor interleaved with writers; concatenation vs. the implementation's own unpaginated answer; bounded termination"),
  "C05": ("4 (C05)", "C05.iff C05.class C05.noeffect: conditional writes decided by the model on the target item only, bystanders chosen to disagree; state equality after refusals"),
  "C08": ("4 (C08)", "C08.trace C08.alive: failing requests of every class injected at arbitrary points; full observable state before = after; client still answers"),
- "C13": ("4 (C13)", "C13.ident C13.reject C13.invariant: adversarial key universes; typed-tuple identity; malformed keys rejected; key attributes invariant"),
+ "C13": ("4 (C13)", "C13.ident C13.reject C13.accept C13.invariant: adversarial key universes; typed-tuple identity; malformed keys rejected, well-formed ones never; key attributes invariant"),
  "C14": ("4 (C14)", "C14.in C14.out C14.frozen: pokes of every mutable location of retained request/response structures at arbitrary later points"),
  "C15": ("4 (C15)", "C15.err C15.batch C15.undo: arbitrary toggle sequences of the product's failure emulation interleaved with every operation kind"),
  "C17": ("4 (C17)", "C17.eq: the same plan executed in lock-step on a v1 and a v2 client, outcomes and observable states compared step by step, each also vs. the model"),
